@@ -3,7 +3,7 @@ C15 line-protocol driver. One case = one request through `Encode.ServeHTTP` in f
 
   <enc> <prefer> <min> <matcher> <method> <ae> <ws> <rcc> <inm> <dct> <rf> <script>
 
-  enc, prefer  `-` or comma-separated encoder names ([a-z0-9]+); prefer ⊆ enc, no duplicates (else Validate fails)
+  enc, prefer  `-` or comma-separated encoder names (gzip|zstd|vprobe); prefer ⊆ enc, no duplicates (else Validate fails)
   min          configured `minimum_length` (integer, 0 = default 512)
   matcher      `d` (default Content-Type list) | `c:<codes>:<pats>`; codes `*` (nil) | `_` (empty) | n,n,…;
                pats `*` (no header constraint) | `_` (Content-Type must exist) | hex,hex,…
@@ -30,7 +30,12 @@ def asciiOk (b : Bytes) : Bool := b.all (fun c => c == 9 || (32 ≤ c && c ≤ 1
 def optHex (s : String) : Option Bytes :=
   if s == "~" then some [] else (Hex.decode s).bind (fun b => if asciiOk b then some b else none)
 
-def nameOk (s : String) : Bool := !s.isEmpty && s.toList.all (fun c => c.isDigit || ('a' ≤ c && c ≤ 'z'))
+/-- the encoders the harness can offer -/
+def nameOk (s : String) : Bool := s == "gzip" || s == "zstd" || s == "vprobe"
+
+/-- `[0-9]{1,9}` (no signs, separators or other spellings) -/
+def parseNat (s : String) : Option Nat :=
+  if !s.isEmpty && s.length ≤ 9 && s.toList.all Char.isDigit then s.toNat? else none
 
 def parseNames (s : String) : Option (List Bytes) :=
   if s == "-" then some [] else
@@ -42,8 +47,8 @@ def noDups : List Bytes → Bool
 
 def parseInt (s : String) : Option Int :=
   match s.toList with
-  | '-' :: r => if r.isEmpty then none else (String.ofList r).toNat?.map (fun n => -(Int.ofNat n))
-  | _ => s.toNat?.map Int.ofNat
+  | '-' :: r => (parseNat (String.ofList r)).map (fun n => -(Int.ofNat n))
+  | _ => (parseNat s).map Int.ofNat
 
 def parseMatcher (s : String) : Option Matcher :=
   if s == "d" then some defaultMatcher else
@@ -51,7 +56,7 @@ def parseMatcher (s : String) : Option Matcher :=
   | ["c", codes, pats] => do
     let cs ← if codes == "*" then some none
       else if codes == "_" then some (some [])
-      else (codes.splitOn ",").mapM String.toNat? |>.map some
+      else (codes.splitOn ",").mapM parseNat |>.map some
     let ps ← if pats == "*" then some none
       else if pats == "_" then some (some [])
       else (pats.splitOn ",").mapM (fun p => (Hex.decode p).bind (fun b => if b.isEmpty then none else some b)) |>.map some
@@ -81,7 +86,7 @@ def parsePayload (s : String) : Option Nat :=
   | k :: r =>
     if kindOk k then
       match (String.ofList r).splitOn "." with
-      | [len, seed] => if seed.toNat?.isSome then len.toNat? else none
+      | [len, seed] => if (parseNat seed).isSome then (parseNat len).bind (fun n => if n ≤ 8388608 then some n else none) else none
       | _ => none
     else none
   | [] => none
@@ -97,7 +102,7 @@ def parseKV (s : String) : Option (Bytes × Bytes) :=
 def parseOp (s : String) : Option (Op Nat) :=
   match s.toList with
   | ['f'] => some .flush
-  | 'h' :: r => (String.ofList r).toNat?.bind (fun n => if 100 ≤ n && n ≤ 999 then some (.writeHeader n) else none)
+  | 'h' :: r => (parseNat (String.ofList r)).bind (fun n => if 100 ≤ n && n ≤ 999 then some (.writeHeader n) else none)
   | 'w' :: r => (parsePayload (String.ofList r)).map .write
   | ['r'] => some (.readFrom [])
   | 'r' :: r => ((String.ofList r).splitOn "/").mapM parsePayload |>.bind
@@ -136,7 +141,7 @@ inductive Tok where
 def tokOf : Ev Nat → Tok
   | .w c => .data false c
   | .e c => .data true c
-  | .wh s snap => .other ("H" ++ toString s ++ (if is1xx s then showHdr snap else ""))
+  | .wh s snap => .other ("H" ++ toString s ++ (if isInformational s then showHdr snap else ""))
   | .ef => .other "EF"
   | .ec => .other "EC"
   | .fl => .other "F"
